@@ -44,7 +44,7 @@ def version_cmp(f, lab, ops, const_suffix=H2, subject=None):
 
 
 def C13_1(ctx, facts):
-    f = facts.fn("client::builder::Builder::build_service")
+    f = facts.unit(facts.fn("client::builder::Builder::build_service"))
     ctx.touched(f)
     svc = [c for c in f.calls() if norm(c.name).endswith("ServiceBuilder::service")]
     ctx.floor("build_service|service-call", len(svc), 1, "ServiceBuilder::service call")
@@ -113,7 +113,7 @@ def C13_2(ctx, facts):
         inner = [c for c in g.calls() if norm(c.decl or c.name).endswith("Service::call")]
         ok = all(g.must_pass(0, g.returns, {c.bb for c in inner})[0] for _ in [0]) and bool(inner)
         ctx.check(ok, "SetHostHeader::call|forwards|%s" % ("execute" if exe else "request"), "the request is always forwarded to the inner service", "a path does not forward the request", g.where())
-    f = facts.fn("service::host::set_host_header")
+    f = facts.unit(facts.fn("service::host::set_host_header"))
     ctx.touched(f)
     ent = [c for c in f.calls() if c.matches(r"HeaderMap.*::entry$")]
     oiw = [c for c in f.calls() if c.matches(r"Entry.*::or_insert_with$|Entry.*::or_insert$")]
@@ -135,7 +135,7 @@ def C13_2(ctx, facts):
         ctx.check(bool(hs) and bool(pt), "set_host_header|value-from-uri", "the value is built from uri.host() and get_non_default_port(uri)",
                   "the header value does not derive from uri.host() / get_non_default_port: %s" % sorted(map(repr, sig(rets)))[:8], body.where())
         ctx.check(any(r.kind == "call" and r.site.matches(r"HeaderValue.*::from_str$") for r in rets), "set_host_header|value-is-header", "built with HeaderValue::from_str", "value not built by from_str", body.where())
-    p = facts.fn("service::host::get_non_default_port")
+    p = facts.unit(facts.fn("service::host::get_non_default_port"))
     ctx.touched(p)
     ints = set()
     for (a, b, lab) in p.edges():
@@ -160,13 +160,13 @@ def C13_2(ctx, facts):
                     combos.add((port, secv))
     ctx.check(combos == {("443", True), ("80", False)}, "get_non_default_port|pairs", "the port is omitted exactly for (443, secure) and (80, not secure)",
               "port omitted for %s" % sorted(combos), p.where())
-    s = facts.fn("service::host::is_schema_secure")
+    s = facts.unit(facts.fn("service::host::is_schema_secure"))
     lits = _secure_literals(facts, s)
     ctx.check(lits == {"https", "wss"}, "is_schema_secure|literals", "secure schemes are exactly https and wss", "secure schemes: %s" % sorted(lits), s.where())
 
 
 def C13_3(ctx, facts):
-    f = facts.fn("service::http::http1::check_http1_request")
+    f = facts.unit(facts.fn("service::http::http1::check_http1_request"))
     ctx.touched(f)
     af = f.calls("service::http::http1::authority_form")
     of = f.calls("service::http::http1::origin_form")
@@ -198,7 +198,7 @@ def C13_3(ctx, facts):
     for (a, b) in f.edges_where(is_connect(False)):
         ok, w = f.must_pass(b, f.returns, {c.bb for c in of} | {c.bb for c in ab})
         ctx.check(ok, "check_http1_request|always-rewritten", "every non-CONNECT request below HTTP/2 goes through origin_form (or is already relative)", "a non-CONNECT request can skip the rewrite", f.where(a), f.path_desc(w))
-    o = facts.fn("service::http::http1::origin_form")
+    o = facts.unit(facts.fn("service::http::http1::origin_form"))
     ctx.touched(o)
     pq = o.calls("http::Uri::path_and_query", "http::uri::Uri::path_and_query")
     ctx.floor("origin_form|path_and_query", len(pq), 1, "path_and_query read")
@@ -217,7 +217,7 @@ def C13_3(ctx, facts):
     ctx.check(bool(dflt), "origin_form|empty-path-slash", "an absent / root path becomes Uri::default() (\"/\")", "no Uri::default() for the empty path", o.where())
     other = [c for c in o.calls() if c.matches(r"Uri.*::(from_static|from_str|try_from)$|Builder")]
     ctx.check(not other, "origin_form|no-other-uri", "no other URI is synthesised", "origin_form builds a URI via %s" % [norm(c.name) for c in other])
-    a = facts.fn("service::http::http1::authority_form")
+    a = facts.unit(facts.fn("service::http::http1::authority_form"))
     stores = []
     for b in sorted(a.live):
         for s in a.stmts(b):
@@ -233,7 +233,7 @@ CONNECTION_HEADER_NAMES = {"header::CONNECTION", "\"proxy-connection\"", "\"keep
 
 
 def C13_4(ctx, facts):
-    f = facts.fn("service::http::http2::check_http2_request")
+    f = facts.unit(facts.fn("service::http::http2::check_http2_request"))
     ctx.touched(f)
     is_h2 = lambda lab: version_cmp(f, lab, ("eq",), subject=r"Connection.*::version$") == "eq" and lab.value is True
     errs = [b for (b, i, s) in f.aggregates("client::error::Error", "InvalidMethod")]
@@ -322,8 +322,8 @@ def C13_4(ctx, facts):
 
 
 def C13_5(ctx, facts):
-    sr = facts.method("client::conn::connection::HttpConnection", "Connection", "send_request")
-    vr = facts.method("client::conn::connection::HttpConnection", "Connection", "version")
+    sr = facts.unit(facts.method("client::conn::connection::HttpConnection", "Connection", "send_request"))
+    vr = facts.unit(facts.method("client::conn::connection::HttpConnection", "Connection", "version"))
     ctx.touched(sr)
     ctx.touched(vr)
     _, a_s = arms(sr, "InnerConnection")
@@ -390,7 +390,7 @@ def C13_6(ctx, facts):
         ctx.check(len(ctors) == 1 and len(hs) == 1, "%s|builds-matching" % nm, "%s performs hyper's %s handshake and wraps the sender with %s" % (nm, mod, ctor),
                   "%s: %d ctor / %d handshake calls" % (nm, len(ctors), len(hs)))
     # protocol derives from the request version
-    ct = facts.fn("client::pool::service::ConnectionPoolService::connect_to")
+    ct = facts.unit(facts.fn("client::pool::service::ConnectionPoolService::connect_to"))
     cn = ct.calls("client::conn::connector::Connector::new")
     for c in cn:
         rr = ct.roots(c.args[3])
